@@ -52,10 +52,11 @@ const (
 	SeamMapOrder
 	SeamCrash
 	SeamSelect // choice among several ready select cases: free
+	SeamClock  // clock step decided by the harness between operations (rather than inside a clock read)
 	NSeams
 )
 
-var seamNames = [...]string{"tick", "fault", "poolmiss", "maporder", "crash", "select"}
+var seamNames = [...]string{"tick", "fault", "poolmiss", "maporder", "crash", "select", "clock"}
 
 func (s Seam) String() string { return seamNames[s] }
 
@@ -108,12 +109,13 @@ type Exec struct {
 	preempt int
 
 	// virtual environment
-	Now      time.Time
-	TickStep time.Duration
-	FS       *FS
-	Stderr   []byte
-	Trace    []string
-	tracing  bool
+	Now       time.Time
+	TickStep  time.Duration
+	TickLands []time.Duration // where in the next interval a tick lands (offsets from the boundary)
+	FS        *FS
+	Stderr    []byte
+	Trace     []string
+	tracing   bool
 	// per-execution registry of lazily initialised shim state
 	resetters []func()
 }
@@ -377,6 +379,9 @@ type RunOpts struct {
 	Trace    bool
 	Start    time.Time
 	TickStep time.Duration
+	// TickLands: the offsets from the next interval boundary at which a clock tick may land; each is a
+	// separate alternative of the tick seam. Default: just after the boundary (1ms).
+	TickLands []time.Duration
 }
 
 // Run executes body once, replaying prefix and taking choice 0 afterwards.
@@ -395,6 +400,10 @@ func Run(body func(), prefix []int, o RunOpts) *Exec {
 	x.TickStep = o.TickStep
 	if x.TickStep == 0 {
 		x.TickStep = time.Hour
+	}
+	x.TickLands = o.TickLands
+	if len(x.TickLands) == 0 {
+		x.TickLands = []time.Duration{time.Millisecond}
 	}
 	x.FS = newFS(x)
 	cur = x
